@@ -57,6 +57,13 @@ const (
 	faultNone   = ""
 	faultError  = "error"
 	faultCancel = "cancel"
+	// faultCancelIgnored: the caller's context is cancelled while the call
+	// is in flight, but the back end does not look at contexts: the call
+	// itself, everything already in flight and everything started later in
+	// that operation completes normally (a store may finish a write it has
+	// started; FindMissing may already have answered). Nothing fails at the
+	// back end, so only the code under test can notice the cancellation.
+	faultCancelIgnored = "cancel_ignored"
 )
 
 // callRec is one call received by a fake back end.
@@ -76,15 +83,18 @@ type callRec struct {
 type world struct {
 	mu sync.Mutex
 
-	calls    []callRec
-	fmCount  int
-	putOcc   map[string]int
-	acPuts   int
-	plan     map[string]string // call key -> fault kind
-	reached  []reachedFault
-	cancel   context.CancelFunc // cancels the context of the operation in progress
-	delays   map[string]time.Duration
-	problems []string
+	calls   []callRec
+	fmCount int
+	putOcc  map[string]int
+	acPuts  int
+	plan    map[string]string // call key -> fault kind
+	reached []reachedFault
+	cancel  context.CancelFunc // cancels the context of the operation in progress
+	// ignoreCtx: the back ends stopped looking at contexts (set by a
+	// cancel_ignored fault, for the rest of the operation).
+	ignoreCtx bool
+	delays    map[string]time.Duration
+	problems  []string
 
 	readers []*trackedReader
 }
@@ -135,6 +145,30 @@ func (w *world) fail(ctx context.Context, key, kind string) error {
 		return status.Error(codes.Canceled, "context canceled")
 	}
 	return injectedError
+}
+
+// ctxErr is how the back ends look at a context.
+func (w *world) ctxErr(ctx context.Context) error {
+	w.mu.Lock()
+	ignore := w.ignoreCtx
+	w.mu.Unlock()
+	if ignore {
+		return nil
+	}
+	return util.StatusFromContext(ctx)
+}
+
+// cancelIgnored applies a cancel_ignored fault: the operation's context is
+// cancelled, the back ends carry on regardless.
+func (w *world) cancelIgnored(key string) {
+	w.mu.Lock()
+	w.reached = append(w.reached, reachedFault{Key: key, Kind: faultCancelIgnored})
+	w.ignoreCtx = true
+	cancel := w.cancel
+	w.mu.Unlock()
+	if cancel != nil {
+		cancel()
+	}
 }
 
 // trackedReader backs every buffer the harness hands to the code under
@@ -277,11 +311,13 @@ func (s *fakeCAS) FindMissing(ctx context.Context, digests digest.Set) (digest.S
 	kind := w.plan[key]
 	w.mu.Unlock()
 
-	if err := util.StatusFromContext(ctx); err != nil {
+	if err := w.ctxErr(ctx); err != nil {
 		w.setResult(idx, "ctx-already-done")
 		return digest.EmptySet, err
 	}
-	if kind != faultNone {
+	if kind == faultCancelIgnored {
+		w.cancelIgnored(key)
+	} else if kind != faultNone {
 		w.setResult(idx, "fault:"+kind)
 		return digest.EmptySet, w.fail(ctx, key, kind)
 	}
@@ -315,7 +351,7 @@ func (s *fakeCAS) Put(ctx context.Context, d digest.Digest, b buffer.Buffer) err
 	delay := w.delays[dk]
 	w.mu.Unlock()
 
-	if err := util.StatusFromContext(ctx); err != nil {
+	if err := w.ctxErr(ctx); err != nil {
 		b.Discard()
 		w.setResult(idx, "ctx-already-done")
 		return err
@@ -325,6 +361,12 @@ func (s *fakeCAS) Put(ctx context.Context, d digest.Digest, b buffer.Buffer) err
 		t := time.NewTimer(delay)
 		select {
 		case <-ctx.Done():
+			if w.ctxErr(ctx) == nil {
+				// The back end ignores the cancellation and
+				// completes the transfer.
+				<-t.C
+				break
+			}
 			t.Stop()
 			b.Discard()
 			w.setResult(idx, "ctx-done-in-flight")
@@ -332,7 +374,9 @@ func (s *fakeCAS) Put(ctx context.Context, d digest.Digest, b buffer.Buffer) err
 		case <-t.C:
 		}
 	}
-	if kind != faultNone {
+	if kind == faultCancelIgnored {
+		w.cancelIgnored(key)
+	} else if kind != faultNone {
 		b.Discard()
 		w.setResult(idx, "fault:"+kind)
 		return w.fail(ctx, key, kind)
@@ -400,12 +444,14 @@ func (s *fakeAC) Put(ctx context.Context, d digest.Digest, b buffer.Buffer) erro
 	kind := w.plan[key]
 	w.mu.Unlock()
 
-	if err := util.StatusFromContext(ctx); err != nil {
+	if err := w.ctxErr(ctx); err != nil {
 		b.Discard()
 		w.setResult(idx, "ctx-already-done")
 		return err
 	}
-	if kind != faultNone {
+	if kind == faultCancelIgnored {
+		w.cancelIgnored(key)
+	} else if kind != faultNone {
 		b.Discard()
 		w.setResult(idx, "fault:"+kind)
 		return w.fail(ctx, key, kind)
